@@ -15,7 +15,7 @@ open Chewing Chewing.Der
 
 /-- a queued non-root item of a well-formed builder -/
 def Item.WF : Item → Prop
-  | .node s l sub => 0 < s ∧ s < 65536 ∧ LeafOK l ∧ (l.isSome = true ∨ sub ≠ .nil) ∧ sub.WF
+  | .node s l sub => 0 < s ∧ s < 65536 ∧ validCode s = true ∧ LeafOK l ∧ (l.isSome = true ∨ sub ≠ .nil) ∧ sub.WF
   | .leaf ps => ps ≠ [] ∧ ∀ p ∈ ps, ValidPhrase p
 
 /-- what `write` needs of any queued item (root included) -/
@@ -25,18 +25,24 @@ def Item.Pre : Item → Prop
 
 theorem Item.WF.pre {it : Item} (h : it.WF) : it.Pre := by
   cases it with
-  | node s l sub => exact ⟨h.2.1, h.2.2.1, h.2.2.2.2⟩
+  | node s l sub => exact ⟨h.2.1, h.2.2.2.1, h.2.2.2.2.2⟩
   | leaf ps => exact h
+
+/-- the syllable of a queued non-root node is the code of a `Syllable` (leaf entries carry 0) -/
+theorem Item.WF.syl_valid {it : Item} (h : it.WF) : it.syl ≠ 0 → validCode it.syl = true := by
+  cases it with
+  | node s l sub => exact fun _ => h.2.2.1
+  | leaf ps => exact fun hz => absurd rfl hz
 
 theorem toItems_WF {f : Forest} (hf : f.WF) : ∀ it ∈ f.toItems, it.WF := by
   induction f with
   | nil => intro it h; cases h
   | cons s l sub next _ ih =>
-    obtain ⟨h1, h2, _, h4, h5, h6, h7⟩ := hf
+    obtain ⟨h1, h2, hv, _, h4, h5, h6, h7⟩ := hf
     intro it h
     simp only [Forest.toItems, List.mem_cons] at h
     rcases h with h | h
-    · subst h; exact ⟨h1, h2, h4, h5, h6⟩
+    · subst h; exact ⟨h1, h2, hv, h4, h5, h6⟩
     · exact ih h7 it h
 
 def sylLt (a b : Item) : Bool := decide (a.syl < b.syl)
